@@ -66,7 +66,13 @@ CONFIG = dict(
          "type tag swapped, sub-object of another type grafted, member renamed, oversized string leaf padded to "
          "1000..200000 bytes incl. maxMessageSize-1/+0/+1/+2, unknown members, 1-40 and 5000-11000 levels of nesting) or "
          "(1/5) raw bytes (random, truncated or byte-flipped documents, binary frames, bracket floods, invalid UTF-8); 1 case "
-         "in 12 ends with a concurrent leave / transient-update stress of two further clients; every frame is followed by "
+         "in 12 ends with a concurrent leave / transient-update stress of two further clients; a second family (30 quick / "
+         "150 thorough cases, `world mcu=2`) runs the real Janus client (mcu_janus*.go, janus_client.go) behind the hub on an "
+         "in-process stand-in gateway: the bystander publishes, the sender (5 states with a session) asks for that stream and in "
+         "half of the cases publishes itself, then 2-9 media messages (requestoffer / sendoffer / selectStream / offer / answer / "
+         "candidate / endOfCandidates to the bystander, itself or nobody) whose payload members (substream, temporal, audio, "
+         "video, type, sdp, candidate, bitrate, sid) are in 1/3 of the cases replaced by a value of another JSON type, plus the "
+         "general mutations; every frame is followed by "
          "barriers on the sender's connection and on the backend-room, room, user and session subjects of both clients, "
          "and the hub tables are digested before and after; a case is non-trivial if some frame changed the tables or "
          "reached the bystander; distinct = distinct op lists",
@@ -75,10 +81,14 @@ CONFIG = dict(
         "harness classifies every document with these same decoders (outside the hub) and hands the model the result",
         "gorilla/websocket framing and read limit; net/http; prometheus client (panics on invalid label values)",
         "the fake Nextcloud backend (accepts every user id not starting with `deny`, every room not starting with `deny`, "
-        "empty permission list for users starting with `restricted`) and the TestMCU of the repository's own tests; "
-        "the Janus / proxy media backends are not exercised",
+        "empty permission list for users starting with `restricted`), the TestMCU of the repository's own tests (mcu=1) and "
+        "the stand-in Janus gateway of zz_verif_c10_janus_test.go (mcu=2: answers every request at once, never looks into what the "
+        "client sent); the proxy MCU client (mcu_proxy.go) and the media proxy (proxy/) are not run for this property - they are "
+        "tied by the reviewed tables of Model/ShapesMedia.lean only (C16/C18 run the proxy itself)",
         "the harness' barriers and digest (zz_verif_c10_world_test.go) and the go/ast walker of tools/extract/shapesclient.go "
-        "(syntactic nil-guard analysis; values that leave a function through struct fields or atomics are not followed)",
+        "(syntactic nil-guard analysis; values that leave a function through struct fields or atomics are not followed) and of "
+        "tools/extract/shapesmedia.go (whole-file tables; map lookups are recognised by declaration, everything else is listed); "
+        "the review of the entries of Model/ShapesMedia.lean (each with its reason in the doc comment)",
     ],
     assumptions=[
         "`every byte string` is reduced to `a decode error or a value of the decoded structure` (decoders trusted, see trusted_base)",
@@ -96,15 +106,18 @@ MANIFEST = dict(
          "forwarding) that is defined over facts regenerated from the Go sources on every run: the per-type `validated => "
          "sub-object non-nil` table of every CheckValid in api_signaling.go, the table of unguarded pointer dereferences below a "
          "client message in every function that receives one, the order decode -> validate -> dispatch, the dispatch table, the "
-         "label of the message counter and maxMessageSize. Proved for all connection states and all frames (any size, "
+         "label of the message counter and maxMessageSize, and the whole-file tables of single-value type assertions, index "
+         "expressions, writes to possibly-nil maps and unguarded dereferences of the media code behind the handlers (Janus client, "
+         "proxy MCU client, media proxy), which must equal the reviewed lists for the model's media branch not to crash. Proved for all connection states and all frames (any size, "
          "text/binary, undecodable or any value of the decoded structure): no crash outcome; invalid frames are answered with "
          "one error, reach nobody and change nothing; the bystander only receives kinds the message content addresses, and an "
          "addressed plain message is delivered. Counter-examples show each guard is needed. Tied to the code by a differential "
          "run of the real Hub with real websocket clients (7 sender states, structure-aware hostile documents and raw bytes, "
-         "bystander and table digest, process liveness).",
+         "bystander and table digest, process liveness), including media conversations with wrong-typed payload members through "
+         "the real Janus client on a stand-in gateway.",
     note="Trusted: Lean kernel, extractor, harness, the JSON/URL/SDP decoders and websocket/http libraries; backend answers "
          "are not client input. Three defects found and repaired: dialout response handler nil dereference (e72f1fa), "
          "process death on a `type` that is not valid UTF-8 (b4fc1ba), leave vs. transient-update deadlock (d70134f, by C14).",
     technique="Lean 4 proof (case analysis over the dispatch of a total model with explicit crash outcomes, table lemmas by "
-              "decide) + regenerated validation/dereference tables + differential correspondence against the real hub",
+              "decide) + regenerated validation/dereference/assertion tables + differential correspondence against the real hub",
 )
